@@ -9,6 +9,7 @@
   lists `evs` accepted by the transition system, by induction on `evs`.
 -/
 import GunYu.Model.ClusterRoute
+import GunYu.Model.ClusterSender
 import GunYu.Proofs.ClusterRoute
 
 namespace GunYu.Props.C19
@@ -263,5 +264,35 @@ example : (trun id (tinit svT (fun _ => 0))
     [.begin 1 [⟨1, 6⟩] 0, .srv 0 1 false .exec, .srv 1 1 false (.moved 0)]).toOption.isNone := by decide
 
 example : TSeqRun id (tinit svT (fun _ => 0)) tevsA := tseqRun_of_B _ _ _ (by decide)
+
+/-! ### sender-level retry / escalation (syncer/output.go sendFunc) -/
+
+open GunYu.ClusterSender in
+/-- transactional mode with a cluster target: a batch that came back with
+    MOVED/ASK/CROSSSLOT is reported at once (restart / break) and is NOT sent
+    again — whatever the nodes accepted of it executed exactly once in this run -/
+theorem txn_cluster_redirect_sent_once (p : Bool) (e : SErr) (he : e ≠ .other)
+    (rest : List (Option SErr)) (r : Nat) :
+    sendFunc ⟨true, p⟩ (some e :: rest) r = (1, direct e) := by
+  cases e with
+  | other => exact absurd rfl he
+  | redirect => simp [sendFunc]
+  | crossslot => simp [sendFunc]
+
+open GunYu.ClusterSender in
+/-- in every mode a failing batch is sent at most three times before the error
+    is reported (each re-send is a repeated suffix, a new segment of C19's log) -/
+theorem sender_sends_at_most_three (m : SMode) (outs : List (Option SErr)) :
+    (sendFunc m outs 0).1 ≤ 3 := by
+  have := sendFunc_bound m outs 0
+  omega
+
+open GunYu.ClusterSender in
+example : sendFunc ⟨false, false⟩ [some .redirect, some .redirect, some .redirect, none] 0 = (3, .typology) := by
+  decide
+open GunYu.ClusterSender in
+example : sendFunc ⟨false, false⟩ [some .redirect, none] 0 = (2, .ok) := by decide
+open GunYu.ClusterSender in
+example : sendFunc ⟨true, true⟩ [some .crossslot, none] 0 = (1, .brk) := by decide
 
 end GunYu.Props.C19
